@@ -51,6 +51,7 @@ def install_trig(x, ctx):
             a, b = x_.as_num(st, args[0], n), x_.as_num(st, args[1], n)
             p, q = (b.val, a.val) if swap else (a.val, b.val)
             for l in lemmas: x_.assume.append(l(p, q))
+            x_.ghost.setdefault(fn.name() + "_args", []).append((st.pc, a.val, b.val))
             return fin(fn(a.val, b.val))
         return h
     x.ext["np.cos"] = f1(cosf, [T1]); x.ext["np.sin"] = f1(sinf, [T1])
@@ -120,10 +121,44 @@ def abs_target(cur, req, rel):
 def sq(a): return a * a
 
 
+def h_to_absolute(x_, recv, args, kwargs, st_):
+    """callee contract of GCodeCore.to_absolute(point) (proved against its body by the unit "GCodeCore.to_absolute"): the absolute target, every
+    coordinate a number — relative mode: resolve(current) + resolve(point); absolute mode: the point's coordinate, or resolve(current) where it is None.
+    Callers (the tracer shapes) are verified against this contract, so their obligations do not depend on how to_absolute() is written."""
+    p = args[0]
+    if not isinstance(p, VPoint): p = x_.construct("Point", x_.unpack(p, st_, None), {}, st_)
+    o = st_.heap[recv.oid]
+    rel = o["_distance_mode"].idx == x_.w.enum_index("DistanceMode", "RELATIVE")
+    return VPoint(*[VOpt(F, fin(t)) for t in abs_target(o["_current_axes"], p, rel)])
+
+
+@unit("GCodeCore.to_absolute", ["C10", "C11"])
+def u_to_absolute(ctx):
+    st = State(T, {}, {}, [])
+    g, tr, wf, info = mk_tracer(ctx, st)
+    x = ctx.executor()
+    p, w1 = sym_point("point", finite=True)
+    ctx.assume(wf, w1)
+    h0 = st.snap()
+    exits = ctx.run(x, "GCodeCore.to_absolute", [g, p], {}, st)
+    covers(ctx, exits); never_raises(ctx, exits)
+    o0 = h0[g.oid]
+    rel = o0["_distance_mode"].idx == ctx.w.enum_index("DistanceMode", "RELATIVE")
+    want = abs_target(o0["_current_axes"], p, rel)
+    for e in exits:
+        if e.kind != "return": continue
+        r = e.payload
+        ctx.check("C11 the absolute target: relative mode current + offset, absolute mode the given coordinate (the current one where omitted); unknown coordinates count as 0; every coordinate is a number",
+                  AND(*[AND(NOT(c.none), c.inner.finite, c.inner.val == t) for c, t in zip(r.items(), want)]), e, None, "post")
+        ctx.check("to_absolute() does not move the builder", unchanged_obj(h0, e.heap, g, fields=["_current_axes", "_distance_mode"]), e, None, "frame")
+        ctx.canary("canary: the mode is ignored", AND(*[c.inner.val == ITE(q.none, z3.RealVal(0), q.inner.val) for c, q in zip(r.items(), p.items())]), e)
+
+
 def run_shape(ctx, method, mk_args):
     st = State(T, {}, {}, [])
     g, tr, wf, info = mk_tracer(ctx, st)
     x = ctx.executor(); install_trig(x, ctx)
+    x.contracts[("GCodeCore", "to_absolute")] = h_to_absolute        # verified in its own unit
     args, wfa = mk_args(ctx, st)
     ctx.assume(wf, wfa)
     h0 = st.snap()
@@ -355,6 +390,7 @@ def u_arc_radius(ctx):
     def rec_arc(x_, recv, args, kwargs, st_):
         st_.log.append((T, ("arc", args[0], args[1]))); return NONE
     x.contracts[("PathTracer", "arc")] = rec_arc                      # verified in its own unit
+    x.contracts[("GCodeCore", "to_absolute")] = h_to_absolute        # verified in its own unit
     target, w1 = sym_point("target", finite=True); r, _ = sym_num("radius", finite=True)
     ctx.assume(wf, w1)
     h0 = st.snap()
@@ -365,7 +401,16 @@ def u_arc_radius(ctx):
     ox, oy, oz = [ITE(c.none, z3.RealVal(0), c.inner.val) for c in cur.items()]
     tx, ty, tz = abs_target(cur, target, rel)
     cw = h0[h0[g.oid]["_state"].oid]["_current_direction"].idx == ctx.w.enum_index("Direction", "CLOCKWISE")
-    d = hyp(tx - ox, ty - oy)
+    # The geometric clauses are non-linear.  They are stated over the code's OWN chord terms (the arguments of its hypot call), which one LINEAR
+    # obligation ties to the specification's chord (absolute target − start): the hard queries then do not depend on how to_absolute() happens to be
+    # written (conditional expression, early return, helper ...), only the easy one does.
+    hargs = x.ghost.get("hypot_args", [])
+    if len(hargs) == 1:
+        ca, cb = hargs[0][1], hargs[0][2]
+        ctx.check("the chord is measured from the current position to the absolute target: (dx, dy) == resolve(target) − start", IMP(hargs[0][0], AND(ca == tx - ox, cb == ty - oy)), None, None, "post")
+    else:
+        ca, cb = tx - ox, ty - oy
+    d = hyp(ca, cb)
     absr = ITE(r.val < 0, -r.val, r.val)
     too_small = OR(r.val == 0, absr < d / 2)
     within_slack = ITE(absr - d / 2 < 0, d / 2 - absr, absr - d / 2) <= z3.Q(1, 100)
@@ -386,7 +431,7 @@ def u_arc_radius(ctx):
         #   lemma Geom.chord_centre(U, V, a, b, h, d, s): field identity, proved on its own from 5 hypotheses
         #   T6 at the radicand the code uses gives h·h
         U, V = fresh("U", R), fresh("V", R)
-        a_, b_ = tx - ox, ty - oy
+        a_, b_ = ca, cb
         hterm = x.ghost.get("sqrt_arg")
         if hterm is not None:
             h_ = sqrtf(hterm)
